@@ -5,7 +5,8 @@ BELT = ["src/crypto/belt/belt_ecb.c", "src/crypto/belt/belt_cbc.c", "src/crypto/
         "src/crypto/belt/belt_lcl.c", "src/core/mem.c", "src/core/util.c", "src/core/blob.c", "src/core/u32.c", "src/core/u64.c",
         "src/core/u16.c", "src/core/word.c"]
 KEYX = ["src/crypto/belt/belt_block.c"]
-UF = {"crypto/belt/belt_block.c": ["beltBlockEncr", "beltBlockEncr2", "beltBlockEncr3", "beltBlockDecr", "beltBlockDecr2", "beltBlockDecr3"]}
+UF = {"crypto/belt/belt_block.c": ["beltBlockEncr", "beltBlockEncr2", "beltBlockEncr3", "beltBlockDecr", "beltBlockDecr2", "beltBlockDecr3"],
+      "crypto/belt/belt_lcl.c": ["beltPolyMul"]}
 GROUPS = []
 LENS = {"ecb": (16, 17, 31, 32, 33, 47, 48, 49), "cbc": (16, 17, 31, 32, 33, 47, 48, 49), "cfb": (0, 1, 15, 16, 17, 32, 33, 48, 49),
         "ctr": (0, 1, 15, 16, 17, 32, 33, 48, 49)}
